@@ -835,17 +835,25 @@ def run_grid(case):
     clients = [(i + 1, [100 * (i + 1) + j + 1 for j in range(c)], 1000 + i) for i, c in enumerate(counts)]
     snapshot = [list(c[1]) for c in clients]
     enc, st = [], []
-    for blk in fec._blockify(iter(clients), D):      # pylint: disable=protected-access
-      ids = [0 if x is None else int(x) for x in blk.client_id]
-      mask = [int(bool(m)) for m in blk.client_mask]
-      nb = [int(x) for x in blk.num_batches]
-      rows = [([int(np.asarray(b)) for b in row], [int(bool(m)) for m in msk]) for row, msk in blk.masked_batches]
-      cin = [int(np.asarray(x)) for x in blk.client_input]
-      enc += ids + [-1] + mask + [-2] + nb + [-3]
-      for r, m in rows:
-        enc += r + m + [-4]
-      enc += cin + [-5]
-      st.append([ids, mask, nb, rows, cin])
+    try:
+      for blk in fec._blockify(iter(clients), D):      # pylint: disable=protected-access
+        ids = [0 if x is None else int(x) for x in blk.client_id]
+        mask = [int(bool(m)) for m in blk.client_mask]
+        nb = [int(x) for x in blk.num_batches]
+        # the CONTENT of padding (the input of a padding client, a batch whose mask is False) is not
+        # observable through the API and the theorems hold for any padding value: recorded as 0
+        rows = [([int(np.asarray(b)) if m else 0 for b, m in zip(row, msk)], [int(bool(m)) for m in msk])
+                for row, msk in blk.masked_batches]
+        cin = [int(np.asarray(x)) if m else 0 for x, m in zip(blk.client_input, mask)]
+        if len(cin) != len(mask) or any(len(r) != len(mask) for r, _ in rows):
+          cin.append(-9)                                 # ragged block: visible in digest and structure
+        enc += ids + [-1] + mask + [-2] + nb + [-3]
+        for r, m in rows:
+          enc += r + m + [-4]
+        enc += cin + [-5]
+        st.append([ids, mask, nb, rows, cin])
+    except Exception as ex:  # pylint: disable=broad-except
+      st, enc = 'raised E' + type(ex).__name__, [-99]
     h = 0
     for x in enc:
       h = (h * 131 + x + 7) % 1000000007
